@@ -18,6 +18,7 @@ RULE = ("dense and sparse tensors (sparsity classes empty/one/some/all, stored o
         "non-trivial = accepted and more than one cell; distinct = distinct case hash")
 ASSUMPTIONS = ["np.nonzero scans in C order of the F-order ravel = first index fastest; linear-index assignment "
                "through tensor.__setitem__ has last-write-wins semantics"]
+ANCHORS = [('pyttb/tensor.py', 'tensor.find'), ('pyttb/tensor.py', 'tensor.to_sptensor'), ('pyttb/tensor.py', 'tensor.to_tenmat'), ('pyttb/tenmat.py', 'tenmat.__init__'), ('pyttb/tenmat.py', 'tenmat.to_tensor'), ('pyttb/sptensor.py', 'sptensor.full'), ('pyttb/sptensor.py', 'sptensor.to_sptenmat'), ('pyttb/sptenmat.py', 'sptenmat.__init__'), ('pyttb/sptenmat.py', 'sptenmat.to_sptensor'), ('pyttb/sptenmat.py', 'sptenmat.full'), ('pyttb/ktensor.py', 'ktensor.full'), ('pyttb/pyttb_utils.py', 'gather_wrap_dims')]
 EXHAUSTIVE = {"quick": False, "thorough": False}
 
 
